@@ -39,6 +39,7 @@ func baseFlags(fs *flag.FlagSet, cfg *Config) {
 	fs.IntVar(&cfg.Workers, "workers", runtime.NumCPU(), "parallel workers")
 	fs.IntVar(&cfg.MaxPaths, "max-paths", 0, "path budget per harness (0 = none)")
 	fs.IntVar(&cfg.Samples, "samples", 5, "sampled paths for witness replay")
+	fs.StringVar(&cfg.Logic, "logic", "", "SMT logic (default QF_BV; QF_FPBV for harnesses with symbolic floats)")
 	fs.BoolVar(&cfg.Trace, "trace", false, "trace SSA instructions")
 	fs.BoolVar(&cfg.Verbose, "v", false, "verbose")
 }
